@@ -85,6 +85,39 @@ func c16Render(p *c16Prog) string {
 	return sb.String()
 }
 
+// fan-in: several producers into one channel, a closer that waits for all of them, one consumer
+type c16Fan struct {
+	Cap   int      `json:"cap"`
+	Ns    []int    `json:"ns"`    // items per producer; producer p sends p*100000 + 0..n-1
+	Style int      `json:"style"` // 0 named function started with go, 1 anonymous closures
+	Elem  string   `json:"elem"`
+	Src   string   `json:"src"`
+	Runs  []string `json:"runs"`
+}
+
+func c16RenderFan(f *c16Fan) string {
+	var sb strings.Builder
+	if f.Cap > 0 {
+		fmt.Fprintf(&sb, "c = make(chan %s, %d)\n", f.Elem, f.Cap)
+	} else {
+		fmt.Fprintf(&sb, "c = make(chan %s)\n", f.Elem)
+	}
+	sb.WriteString("done = make(chan bool)\n")
+	if f.Style == 0 {
+		sb.WriteString("func produce(base, n) { for i = 0; i < n; i++ { c <- base + i }; done <- true }\n")
+	}
+	for p, n := range f.Ns {
+		if f.Style == 0 {
+			fmt.Fprintf(&sb, "go produce(%d, %d)\n", p*100000, n)
+		} else {
+			fmt.Fprintf(&sb, "go func() { for i = 0; i < %d; i++ { c <- %d + i }; done <- true }()\n", n, p*100000)
+		}
+	}
+	fmt.Fprintf(&sb, "go func() { for i = 0; i < %d; i++ { z = (<- done) }; close(c) }()\n", len(f.Ns))
+	sb.WriteString("res = []\nfor x in c { res += [x] }\nres\n")
+	return sb.String()
+}
+
 func c16Run(src string) string {
 	e := env.NewEnv()
 	ctx, cancel := context.WithTimeout(context.Background(), 4*time.Second)
@@ -184,6 +217,58 @@ func c16Main(seed uint64, n int, outDir string) error {
 		fmt.Fprintf(sx, "c16 (%d (%s) (%s))\n", p.Cap0, strings.Join(st, " "), strings.Join(it, " "))
 		progs = append(progs, p)
 	}
-	mb, _ := json.Marshal(map[string]interface{}{"programs": progs, "runs_per_program": runsPer})
+	var fans []*c16Fan
+	fsx, err := os.Create(filepath.Join(outDir, "fan.sx"))
+	if err != nil {
+		return err
+	}
+	defer fsx.Close()
+	nf := n / 5
+	for i := 0; i < nf+3 && stuck < 6; i++ {
+		f := &c16Fan{Cap: []int{0, 1, 1, 2, 5}[rnd.Intn(5)], Style: rnd.Intn(2), Elem: []string{"int64", "int64", "interface"}[rnd.Intn(3)]}
+		np := 2 + rnd.Intn(3)
+		for p := 0; p < np; p++ {
+			f.Ns = append(f.Ns, []int{0, 1, 5, 40, 300}[rnd.Intn(5)])
+		}
+		if i < 3 { // always: heavy contention on a one-slot channel
+			f.Cap, f.Ns = 1, []int{1500, 1500, 1500, 1500}
+		}
+		f.Src = c16RenderFan(f)
+		for r := 0; r < runsPer; r++ {
+			runtime.GOMAXPROCS([]int{4, 8, 16, 2, 3, 1}[(i+r)%6])
+			out := c16Run(f.Src)
+			f.Runs = append(f.Runs, out)
+			if strings.HasPrefix(out, "error") || out == "TIMEOUT" {
+				stuck++
+				break
+			}
+		}
+		var its []string
+		for p, n := range f.Ns {
+			var vs []string
+			for j := 0; j < n; j++ {
+				vs = append(vs, fmt.Sprint(p*100000+j))
+			}
+			its = append(its, "("+strings.Join(vs, " ")+")")
+		}
+		for _, out := range f.Runs {
+			var ms []string
+			if strings.HasPrefix(out, "(") {
+				for _, t := range strings.Fields(strings.Trim(out, "()")) {
+					var v int64
+					if _, err := fmt.Sscan(t, &v); err != nil {
+						ms = append(ms, "(99 0)") // not a number: no producer sent it
+						continue
+					}
+					ms = append(ms, fmt.Sprintf("(%d %d)", v/100000, v))
+				}
+			} else {
+				ms = append(ms, "(99 0)")
+			}
+			fmt.Fprintf(fsx, "c16f ((%s) (%s))\n", strings.Join(its, " "), strings.Join(ms, " "))
+		}
+		fans = append(fans, f)
+	}
+	mb, _ := json.Marshal(map[string]interface{}{"programs": progs, "runs_per_program": runsPer, "fans": fans})
 	return os.WriteFile(filepath.Join(outDir, "meta.json"), mb, 0o644)
 }
